@@ -126,6 +126,12 @@ def apply_contract(eng, st, c, args, kw, node, arg_exprs=(), kw_exprs=None, recv
         if not isinstance(res, Val):
             res = Val(c.result_type, res)
         return res
+    if getattr(eng, "_comp_depth", 0) > 0:
+        cp = getattr(c, "pure_in_comprehension", None)
+        if cp is None:
+            raise OutOfSubset(f"call of {c.short} inside a comprehension: the contract has no functional (pure) view")
+        res = cp(ctx, eng, st)
+        return res if isinstance(res, Val) else Val(c.result_type, res)
     newvals = _havoc_frame(eng, st, c, argmap, exprmap, c.modifies)
     env2 = dict(argmap)
     env2.update(newvals)
@@ -149,7 +155,25 @@ def apply_contract(eng, st, c, args, kw, node, arg_exprs=(), kw_exprs=None, recv
         except (AttributeError, KeyError):
             continue          # the clause speaks about a local of the callee: not available to (and not assumed by) the caller
         st.assume(g)
+    if res is not None and _is_generator(c) and not isinstance(res, E.Ref):
+        res = OneShotVal(res.ty, res.t)          # the caller holds a generator object, not a list
     return res if res is not None else NONE
+
+
+def _is_generator(c):
+    """does the function behind the contract contain `yield` (read from the current source, cached per contract)"""
+    g = getattr(c, "_is_gen_cached", None)
+    if g is None:
+        g = bool(getattr(c, "generator", False))
+        if not g and c.qualname.startswith("biobalm."):
+            try:
+                from . import extract
+                fn = extract.extract(c.qualname)
+                g = any(isinstance(n, (ast.Yield, ast.YieldFrom)) for n in ast.walk(fn.node))
+            except Exception:
+                g = False
+        c._is_gen_cached = g
+    return g
 
 
 def _rebind(st, argmap, exprmap, eng):
